@@ -128,8 +128,9 @@ func runC14(c *wk.Ctx) {
 		// ---- (c) recursive shapes -----------------------------------------------------
 		if idx < int64(3*len(tricky)) {
 			shape := tricky[int(idx)%len(tricky)]
-			t, ok, _ := buildGuarded(shape)
+			t, ok, bmsg := buildGuarded(shape)
 			if !ok {
+				c.Violation("C14:hand-written-scope-refused:"+shape.Root, "the constructors refuse a hand-written scope that has finite values: "+bmsg, map[string]any{"schema": shape.Describe()})
 				return
 			}
 			env := &gen.Env{}
@@ -172,9 +173,10 @@ func runC14(c *wk.Ctx) {
 			c.Count("skipped:unresolvable-reference")
 			return
 		}
-		tInl, ok, _ := buildGuarded(inlined)
+		tInl, ok, inlMsg := buildGuarded(inlined)
 		if !ok {
 			c.Count("misbuilt_inlined")
+			c.Sample("misbuilt_inlined", map[string]any{"why": inlMsg, "inlined": clipStr(inlined.Describe(), 600)})
 			return
 		}
 		var nss []string
@@ -240,9 +242,9 @@ func runC14(c *wk.Ctx) {
 		for pi, order := range permutations(nss) {
 			var t schema.Type
 			var bt map[string]map[string]*schema.ObjectSchema
-			if p, _, msg, _ := wk.Guard(func() { t = gen.Build(shape); bt = buildTables() }); p {
-				c.Count("misbuilt_schemas")
-				_ = msg
+			if p, site, msg, _ := wk.Guard(func() { t = gen.Build(shape); bt = buildTables() }); p {
+				// the same tree with every reference replaced by its target was built a moment ago
+				c.Violation("C14:refused-but-inlined-accepted:"+site, "the constructors refuse a scope whose inlined equivalent (every reference replaced by the object it resolves to) they accept: "+msg, witBase)
 				return
 			}
 			applied := map[string]bool{}
